@@ -517,6 +517,7 @@ class EOSMixture(Mixture):
     
     def eos_args(self, phase, mol, T, P):
         chemicals = self.chemicals
+        if mol.__class__ is not SparseVector: mol = SparseVector(mol)
         dct = mol.dct
         eos_chemicals = self.eos_chemicals
         chemical_subset = []
